@@ -2,6 +2,7 @@ package checks
 
 import (
 	"fmt"
+	"os"
 
 	"github.com/nuetzliches/hookaido/verifharness/storecheck"
 	"github.com/nuetzliches/hookaido/verifharness/vlib"
@@ -69,6 +70,12 @@ func C12(c *vlib.Ctx) {
 	c.Rule("store part: generated enqueue-heavy sequences on memory and SQLite for max_depth 1..8 x reject/drop_oldest (+ lowered memory-pressure limits on memory); an independent admission model predicts admit/refuse and the exact evicted set from the snapshot before each enqueue, and every refusal must leave the snapshot unchanged. ingress part: body/header sizes around max_body/max_headers through the production ingress handler and arrival sequences through the production token-bucket limiter under a virtual clock. distinct_nontrivial = distinct (backend, operation, result class, observed transitions) tuples plus distinct limiter/size classes.")
 	c.Assume("received_at strictly increasing in enqueue order (the generator never sets out-of-order values here), retention off, so 'oldest' and the active count are unambiguous")
 	c.Assume("states with active > max_depth (after operator requeue/resume) are skipped as the quantifier says")
+	if os.Getenv("VERIF_PART") == "concurrent" {
+		// thorough tier, second pass under the race detector: same-instant concurrency at the limiter
+		c12Ingress(c)
+		c.CollectRaces()
+		return
+	}
 	c12Store(c)
 	c12Ingress(c)
 }
